@@ -389,6 +389,15 @@ func genTokens(rng *Rng, thorough bool, emit func(tc tokCase)) {
 			t = fullBase()
 			setKey(t, -75000, nTstr(psa.Profile2Name))
 			emit(tokCase{class: pn + "both-profile-keys", n: t})
+			// names that differ from the registered one only by what a URL parser would normalise away, or by
+			// case / white space: each names a profile nobody registered
+			for _, v := range []string{"HTTP://arm.com/psa/2.0.0", "Http://arm.com/psa/2.0.0", "http://arm.com/psa/2.0.0#", "http://arm.com/psa/2.0.0?",
+				"http://ARM.com/psa/2.0.0", "http://arm.com/psa/2.0.0/", "http://arm.com:80/psa/2.0.0", "http://arm.com/psa/2.0.0 ", " http://arm.com/psa/2.0.0",
+				"http://arm.com/psa/2.0.00", "http://arm.com/psa/2.0", "http://arm.com/./psa/2.0.0", "http://arm.com/psa/%32.0.0", "psa_iot_profile_1", "PSA_IOT_PROFILE_1 "} {
+				t = fullBase()
+				setKey(t, 265, nTstr(v))
+				emit(tokCase{class: pn + "profile-name-variant", n: t})
+			}
 		}
 		// exempt encodings
 		if p == 2 {
